@@ -141,26 +141,83 @@ func init() {
 	stubs["strings.Split"] = stubSplit
 
 	// ---- strconv ----
+	// strconv.FormatUint / ParseUint: an uninterpreted inverse pair *per base*, made exact for one-
+	// and two-digit strings (so that a wrong base or a wrong radix shows with a small, natively
+	// reproducible value); longer strings are only related through parse_b(format_b(x)) = x.
+	digitChar := func(d *smt.Term) *smt.Term { // 64-bit digit value -> ASCII byte
+		return smt.Ite(smt.ULt(d, c64(10)), smt.Extract(7, 0, smt.Add(d, c64('0'))), smt.Extract(7, 0, smt.Add(d, c64('a'-10))))
+	}
+	digitVal := func(ch *smt.Term, base uint64) (*smt.Term, *smt.Term) { // byte -> (valid, value)
+		c := smt.ZExt(ch, 64)
+		isNum := smt.And(smt.ULe(c64('0'), c), smt.ULe(c, c64('9')))
+		isLow := smt.And(smt.ULe(c64('a'), c), smt.ULe(c, c64('z')))
+		isUp := smt.And(smt.ULe(c64('A'), c), smt.ULe(c, c64('Z')))
+		v := smt.Ite(isNum, smt.Sub(c, c64('0')), smt.Ite(isLow, smt.Sub(c, c64('a'-10)), smt.Sub(c, c64('A'-10))))
+		return smt.And(smt.Or(isNum, isLow, isUp), smt.ULt(v, c64(int(base)))), v
+	}
 	stubs["strconv.FormatUint"] = func(e *Exec, fn *ssa.Function, args []Value) Value {
 		v := args[0].(*smt.Term)
-		t := smt.UF("fmtuint", "((_ BitVec 64)) Str", smt.StrS, v)
-		// ParseUint(FormatUint(x)) = x
-		e.addAxiom(smt.Eq(smt.UF("parseuint", "(Str) (_ BitVec 64)", smt.BV64, t), v))
-		e.addAxiom(smt.UF("parseuint_ok", "(Str) Bool", smt.Bool, t))
-		e.addAxiom(smt.And(smt.ULe(c1, strlenOf(t)), smt.ULe(strlenOf(t), c64(20))))
-		e.Notes["stub strconv.FormatUint/ParseUint: uninterpreted inverse pair, output is 1..20 decimal digits"] = true
-		e.digitAtoms = append(e.digitAtoms, t)
+		bt := args[1].(*smt.Term)
+		if !bt.IsConst() || bt.Val < 2 || bt.Val > 36 {
+			panic(engineErr("strconv.FormatUint with a non-constant base"))
+		}
+		base := bt.Val
+		sfx := fmt.Sprint(base)
+		t := smt.UF("fmtuint"+sfx, "((_ BitVec 64)) Str", smt.StrS, v)
+		key := fmt.Sprintf("fmtuint%s:%d", sfx, v.ID())
+		if _, done := e.path.extra[key]; !done {
+			e.path.extra[key] = true
+			// ParseUint(FormatUint(x, b), b) = x
+			e.addAxiom(smt.Eq(smt.UF("parseuint"+sfx, "(Str) (_ BitVec 64)", smt.BV64, t), v))
+			e.addAxiom(smt.UF("parseuint_ok"+sfx, "(Str) Bool", smt.Bool, t))
+			e.addAxiom(smt.And(smt.ULe(c1, strlenOf(t)), smt.ULe(strlenOf(t), c64(64))))
+			b1, b2 := c64(int(base)), c64(int(base*base))
+			by := func(i int) *smt.Term { return FnAtom{t}.Read(c64(i)) }
+			// one digit
+			e.addAxiom(smt.Implies(smt.ULt(v, b1), smt.And(smt.Eq(strlenOf(t), c1), smt.Eq(by(0), digitChar(v)))))
+			// two digits: leading digit by case split (no division)
+			hi := c0
+			for d := int(base) - 1; d >= 1; d-- {
+				hi = smt.Ite(smt.UGe(v, c64(d*int(base))), smt.Ite(smt.ULt(hi, c64(d)), c64(d), hi), hi)
+			}
+			lo := smt.Sub(v, smt.Mul(hi, b1))
+			e.addAxiom(smt.Implies(smt.And(smt.UGe(v, b1), smt.ULt(v, b2)),
+				smt.And(smt.Eq(strlenOf(t), c64(2)), smt.Eq(by(0), digitChar(hi)), smt.Eq(by(1), digitChar(lo)))))
+			e.addAxiom(smt.Implies(smt.UGe(v, b2), smt.UGe(strlenOf(t), c64(3))))
+			e.digitAtoms = append(e.digitAtoms, t)
+		}
+		e.Notes["stub strconv.FormatUint/ParseUint: uninterpreted inverse pair per base, exact for values below base^2 / strings of at most two digits"] = true
 		return Str{Fn: FnAtom{t}, Off: c0, Len: strlenOf(t)}
 	}
 	stubs["strconv.ParseUint"] = func(e *Exec, fn *ssa.Function, args []Value) Value {
 		s := args[0].(Str)
-		t, ok := strView(s).wholeAtom()
-		if !ok {
-			t = e.atomOfView(strView(s))
+		bt := args[1].(*smt.Term)
+		if !bt.IsConst() || bt.Val < 2 || bt.Val > 36 {
+			panic(engineErr("strconv.ParseUint with a non-constant or zero base"))
 		}
-		okT := smt.UF("parseuint_ok", "(Str) Bool", smt.Bool, t)
+		base := bt.Val
+		sfx := fmt.Sprint(base)
+		sv := strView(s)
+		t, ok := sv.wholeAtom()
+		if !ok {
+			t = e.atomOfView(sv)
+		}
+		okT := smt.UF("parseuint_ok"+sfx, "(Str) Bool", smt.Bool, t)
+		val := smt.UF("parseuint"+sfx, "(Str) (_ BitVec 64)", smt.BV64, t)
+		key := fmt.Sprintf("parseuint%s:%d", sfx, t.ID())
+		if _, done := e.path.extra[key]; !done {
+			e.path.extra[key] = true
+			by := func(i int) *smt.Term { return FnAtom{t}.Read(c64(i)) }
+			ok0, v0 := digitVal(by(0), base)
+			ok1, v1 := digitVal(by(1), base)
+			e.addAxiom(smt.Implies(smt.Eq(strlenOf(t), c0), smt.Not(okT)))
+			e.addAxiom(smt.Implies(smt.Eq(strlenOf(t), c1), smt.And(smt.Eq(okT, ok0), smt.Implies(ok0, smt.Eq(val, v0)))))
+			e.addAxiom(smt.Implies(smt.Eq(strlenOf(t), c64(2)), smt.And(smt.Eq(okT, smt.And(ok0, ok1)),
+				smt.Implies(smt.And(ok0, ok1), smt.Eq(val, smt.Add(smt.Mul(v0, c64(int(base))), v1))))))
+		}
+		e.Notes["stub strconv.FormatUint/ParseUint: uninterpreted inverse pair per base, exact for values below base^2 / strings of at most two digits"] = true
 		if e.branch(okT) {
-			return Tuple{smt.UF("parseuint", "(Str) (_ BitVec 64)", smt.BV64, t), nilErr()}
+			return Tuple{val, nilErr()}
 		}
 		return Tuple{c0, e.newErr("strconv.ParseUint")}
 	}
@@ -828,5 +885,30 @@ func init() {
 			panic(engineErr("vRecordBytes: value is not concrete"))
 		}
 		return rec(e, args, fmt.Sprintf("%x", s))
+	}
+}
+
+func init() {
+	// vAddrSpelling(site, addr): the address string itself, or (solver's choice) another valid
+	// bech32 spelling of the same account - natively the all-upper-case form, which bech32 allows.
+	extraIntrinsics["vAddrSpelling"] = func(e *Exec, fn *ssa.Function, args []Value) Value {
+		site := e.siteKey(e.mustConstString(args[0], "nondet site"))
+		addr := args[1].(Str)
+		u := smt.Var("in:"+site+".upper", smt.Bool)
+		e.addSite(NondetSite{Key: site + ".upper", Kind: "bool", Term: u})
+		if !e.branch(u) {
+			return addr
+		}
+		t, ok := strView(addr).wholeAtom()
+		if !ok {
+			t = e.atomOfView(strView(addr))
+		}
+		s := smt.Var("spelling:"+site, smt.StrS)
+		dec := func(x *smt.Term) *smt.Term { return smt.UF("bech32dec", "(Str) Str", smt.StrS, x) }
+		e.assume(smt.And(smt.UF("bech32ok", "(Str) Bool", smt.Bool, s), smt.Eq(dec(s), dec(t)), smt.Not(smt.Eq(s, t)),
+			smt.Eq(strlenOf(s), strlenOf(t))))
+		e.bech32Atoms = append(e.bech32Atoms, s)
+		e.Notes["vAddrSpelling: a second valid bech32 spelling of the same account (natively: upper case)"] = true
+		return Str{Fn: FnAtom{s}, Off: c0, Len: strlenOf(s)}
 	}
 }
